@@ -1016,3 +1016,65 @@ pub fn run_malicious(ctx: &mut Ctx) {
         }
     }
 }
+
+/// Plain-HTTP requests whose body pauses for longer than the idle timeout while the origin keeps the exchange alive (an
+/// upload that stalls, an origin that streams something meanwhile): the per-direction timers fire and the pipe restarts its
+/// two loops, dropping the pending `read` of the request body - which must not lose the rest of the body.
+pub fn run_restarts(ctx: &mut Ctx) {
+    for (version, t_ms, pause) in [(11u8, 30_000u64, 40_000u64), (2, 30_000, 40_000), (3, 1_000, 1_700), (11, 1_000, 2_500)] {
+        let desc = format!(
+            "POST over HTTP/{} with Content-Length 8: 4 body bytes, a pause of {} ms (idle timeout {} ms; the origin sends an interim response every {} ms meanwhile), 4 more bytes",
+            version, pause, t_ms, t_ms / 2
+        );
+        begin_case(&desc);
+        let r = catch(std::panic::AssertUnwindSafe(move || {
+            let rt = tokio::runtime::Builder::new_current_thread().enable_all().start_paused(true).build().unwrap();
+            rt.block_on(async move {
+                let body_ev = vec![(1, SrcEv::Chunk(b"aaaa".to_vec())), (pause, SrcEv::Chunk(b"bbbb".to_vec())), (1, SrcEv::Eof)];
+                // the origin keeps its direction active while it waits for the body, then answers
+                let mut origin_ev: Vec<(u64, SrcEv)> = vec![];
+                let n = (pause / (t_ms / 2)) as usize + 1;
+                for _ in 0..n {
+                    origin_ev.push((t_ms / 2, SrcEv::Chunk(b"HTTP/1.1 100 Continue\r\n\r\n".to_vec())));
+                }
+                origin_ev.push((t_ms / 2, SrcEv::Chunk(b"HTTP/1.1 200 OK\r\nContent-Length: 2\r\n\r\nok".to_vec())));
+                origin_ev.push((1, SrcEv::Eof));
+                let run = vfwd::run(
+                    VFwdRequest {
+                        method: "POST".into(),
+                        uri: "http://origin.test/upload".into(),
+                        version,
+                        headers: {
+                            let mut h: Vec<(String, Vec<u8>)> = vec![("content-length".into(), b"8".to_vec())];
+                            if version == 11 {
+                                h.insert(0, ("host".into(), b"origin.test".to_vec()));
+                            }
+                            h
+                        },
+                    },
+                    SrcScript { events: body_ev, consume_err_at: None },
+                    SinkScript { quotas: vec![], ..Default::default() },
+                    SrcScript { events: origin_ev, consume_err_at: None },
+                    SinkScript { quotas: vec![], writable_delays: vec![], ..Default::default() },
+                    t_ms,
+                )
+                .await;
+                (accepted(&run.log, 0), run.result.clone())
+            })
+        }));
+        ctx.stat("request_body_across_timer_restarts");
+        match r {
+            Err(m) => ctx.oracle_failure("panic", &format!("{}: panicked ({})", desc, m)),
+            Ok((req, result)) => {
+                let body_at = req.windows(4).position(|w| w == b"\r\n\r\n").map(|p| p + 4).unwrap_or(req.len());
+                let body = &req[body_at..];
+                if body != b"aaaabbbb" {
+                    ctx.oracle_failure(
+                        "request_body_cut_at_restart",
+                        &format!("{}: the origin was sent the body {:?} (exchange result {}), the client sent \"aaaabbbb\"", desc, String::from_utf8_lossy(body), result),
+                    );
+                }
+            }
+        }
+    }
+}
